@@ -19,11 +19,11 @@
 } @*/
 #include "c14_sv.h"
 /* slot j: moved prefix [0,pos): self[j] LIVE with other's value, other[j] MOVED-from; the rest: self[j] RAW, other[j] as on entry */
-#define SPEC_INV(j) ((j) >= CAP || (((j) < pos ? (self->_data[j].g_state == ELEM_LIVE && self->_data[j].v == other->_data[j].v && \
-                                                  other->_data[j].g_state == ELEM_MOVED) \
-                                               : (self->_data[j].g_state == ELEM_RAW && \
-                                                  ((j) < other->m_size ? other->_data[j].g_state == ELEM_LIVE : other->_data[j].g_state == ELEM_RAW))) && \
-                                    ((j) != g_k || other->_data[j].v == g_old_k.v)))
+#define SPEC_INV(j) ((j) >= CAP || (((j) < pos ? (ELEM_ST(&self->_data[j]) == ELEM_LIVE && ELEM_V(&self->_data[j]) == ELEM_V(&other->_data[j]) && \
+                                                  ELEM_ST(&other->_data[j]) == ELEM_MOVED) \
+                                               : (ELEM_ST(&self->_data[j]) == ELEM_RAW && \
+                                                  ((j) < other->m_size ? ELEM_ST(&other->_data[j]) == ELEM_LIVE : ELEM_ST(&other->_data[j]) == ELEM_RAW))) && \
+                                    ((j) != g_k || ELEM_V(&other->_data[j]) == ELEM_V(&g_old_k))))
 #define C14_HAVE_SV
 #include "cxx/sv.c"
 #include "c14_harness.h"
@@ -51,7 +51,7 @@ void harness(void)
     V(__CPROVER_assert(v.m_size == m && SV_SIZE_OK(&v), "size' == old other.size() <= N");)
     V(__CPROVER_assert(SV_SIZE_OK(&o), "the moved-from vector has a size <= N");)
     if (k < cap) {
-        if (k < m) V(__CPROVER_assert(v._data[k].v == g_old_k.v, "element k has the value other[k] had");)
+        if (k < m) V(__CPROVER_assert(ELEM_V(&v._data[k]) == ELEM_V(&g_old_k), "element k has the value other[k] had");)
         L(__CPROVER_assert(SV_SLOT_OK(&v, k), "SV: slots below m_size LIVE, the others RAW");)
         L(__CPROVER_assert(SV_SLOT_VALID(&o, k), "moved-from vector: every object it still holds is below its size (will be destroyed exactly once), none beyond");)
     }
